@@ -8,6 +8,16 @@ ERR = {"ErrTxNotWritable": "ETxNotWritable", "BoltErrTxNotWritable": "EBoltTxNot
 KIND = {"update-ok": "(KUpdate OOk)", "update-err": "(KUpdate OErr)", "update-panic": "(KUpdate OPanic)",
         "view-ok": "(KView OOk)", "view-err": "(KView OErr)", "view-panic": "(KView OPanic)",
         "manual-commit": "(KManual true)", "manual-rollback": "(KManual false)", "manual-read": "KManualRead"}
+BATCH = {"batch-ok": "OOk", "batch-err": "OErr", "batch-panic": "OPanic"}
+END = {"ok": "OOk", "err": "OErr", "panic": "OPanic"}
+
+
+def kind(st, ob):
+    k = st["kind"]
+    if k in BATCH:
+        # the closure ran runs times: runs-1 attempts rolled back by bbolt before the one that decided
+        return "(KBatch %s %d%%nat)" % (BATCH[k], max(int(ob.get("runs", 1)) - 1, 0))
+    return KIND[k]
 RET = {"nil": "(Some OOk)", "err": "(Some OErr)", "panic": "(Some OPanic)"}
 MUTATING = ("put", "del", "mk", "mkif", "rm", "setseq", "nextseq")
 
@@ -17,10 +27,10 @@ class Unrepresentable(Exception):
 
 
 class Interner:
-    """byte strings of a shard are defined once and referred to by name"""
+    """byte strings and buckets of a shard are defined once and referred to by name"""
 
     def __init__(self):
-        self.names, self.defs = {}, []
+        self.names, self.defs, self.trees = {}, [], {}
 
     def b(self, h):
         if h == "":
@@ -31,15 +41,26 @@ class Interner:
             self.names[h] = n
             raw = bytes.fromhex(h)
             if len(raw) > 400 and len(set(raw)) == 1:
-                lit = "repeat %d %d%%nat" % (raw[0], len(raw))
+                lit = "repeat %d%%N %d%%nat" % (raw[0], len(raw))
             else:
-                # long literals are split: the parser's stack is limited
-                lit = " ++ ".join("[%s]" % "; ".join(str(x) for x in raw[i:i + 400]) for i in range(0, len(raw), 400))
+                # seven bytes per native 63-bit literal (KVCorr.bx)
+                pad = raw + b"\0" * (-len(raw) % 7)
+                ws = ["0x%s" % pad[i:i + 7].hex() for i in range(0, len(pad), 7)]
+                lit = "bx %d [%s]" % (len(raw), "; ".join(ws))
             self.defs.append("Definition %s : bytes := %s." % (n, lit))
         return n
 
     def v(self, h):
         return "None" if h is None else "(Some %s)" % self.b(h)
+
+    def t(self, text):
+        """a bucket literal (already rendered with names for its parts)"""
+        n = self.trees.get(text)
+        if n is None:
+            n = "t%d" % len(self.trees)
+            self.trees[text] = n
+            self.defs.append("Definition %s : bkt := %s." % (n, text))
+        return n
 
 
 def err(e):
@@ -52,24 +73,34 @@ def err(e):
 
 class C11(Check):
     ID = "C11"
-    RULE = ("random cases of 3..12 steps on a fresh bbolt file through walletdb+bdb: managed Update/View whose closure returns nil, "
-            "returns an error or panics after its operations, manual Begin/Commit/Rollback, a reader overlapping a writer, close+reopen; "
+    RULE = ("random cases of 3..12 steps on a fresh bbolt file through walletdb+bdb (4 cases at a time, own random streams per case): managed "
+            "Update/View/Batch whose closure returns nil, returns an error (a private one, or the walletdb error of its last failing call) or "
+            "panics after its operations, manual Begin/Commit/Rollback, a reader overlapping a writer, 2..6 goroutines released together into "
+            "walletdb.Update or walletdb.Batch with closures on one shared bucket (a third of them failing or panicking), close+reopen; "
             "bodies of 1..14 calls (Put/Get/Delete/CreateBucket(IfNotExists)/DeleteNestedBucket/Nested*/ForEach/Sequence ops/cursor walks "
             "incl. delete-then-reposition, top-level bucket calls) on bucket paths of depth <= 4 with keys from a pool of 0x00/0xff-prefixed, "
             "mutually-prefix and existing names, nil/empty/long values, re-created buckets, read-only write attempts, one multi-page bucket; "
-            "whole tree dumped after every step. non-trivial = at least 2 steps and one successful mutation; distinct by input")
+            "whole tree dumped and bbolt's count of open read transactions read after every step; after a step that leaves a read "
+            "transaction open, Close under a 1.5 s deadline. non-trivial = at least 2 steps and one successful mutation; distinct by input")
     N_QUICK = 220
     N_THOROUGH = 3000
-    SHARD = 75
+    SHARD = 40
     WORKERS = 6
     PARTIAL_CLAUSES = [
         "crash atomicity and durability of the file (a committed transaction survives, a torn one does not) is bbolt's and trusted: "
         "the model's reopen is the identity on the committed tree; the check only exercises clean close+reopen",
         "cursor semantics after Cursor.Delete without re-positioning, and Prev/Last over a multi-page bucket that had deletions in the "
         "same transaction, are outside the compared patterns (bbolt's Prev stops at an emptied leaf page: reported finding)",
+        "concurrent callers: the theorem (every interleaving admitted by the single-writer lock is a serial run) is about the model's "
+        "writer flag; that bbolt's lock IS such a lock, and that bbolt's Batch runs the closures of one batch one after the other in "
+        "one transaction, is exercised (serialisability oracle on what the closures saw), not proved",
+        "the control-flow skeleton of Update/View (Generated/TxFlow.v) is read from the source by symbolic execution of every path and "
+        "confirmed by a behavioural probe; that of Batch comes from the probe alone (bbolt.Batch is outside the repository)",
     ]
     ASSUMPTIONS = ["bucket handles are re-resolved by path before every call (no use of a handle to a deleted bucket)",
-                   "single goroutine: blocking of a second writer is modelled by the writer flag only"]
+                   "tx.Commit / tx.Rollback themselves succeed (the skeleton says which one is called, not what a failing commit does)",
+                   "closures of concurrent callers do not put nil values (closures of one bbolt batch share a transaction, in which a "
+                   "nil value reads back as nil until the commit)"]
 
     def gen_args(self, tier, seed):
         args = Check.gen_args(self, tier, seed)
@@ -85,6 +116,12 @@ class C11(Check):
         if len(steps) < 2:
             return False
         for st, ob in zip(steps, c["obs"]["steps"]):
+            if st["t"] == "conc":
+                for cl, co in zip(st.get("calls", []), ob.get("calls", [])):
+                    for o, r in zip(cl.get("ops", [])[2:], co.get("res", [])[2:]):
+                        if cl["end"] == "ok" and o["o"] in MUTATING and r.get("e") == "nil":
+                            return True
+                continue
             if st["t"] == "reopen" or st["kind"].startswith("view") or st["kind"] == "manual-read":
                 continue
             for o, r in zip(st.get("ops", []), ob.get("res", [])):
@@ -111,6 +148,7 @@ class C11(Check):
             text = self.render_cases(cases[start:start + self.SHARD])
             return start, coq_eval(self.ID, text, "cases_%d" % start)
         mism, logs, problems = [], "", []
+        self.drift = []
         with ThreadPoolExecutor(max_workers=self.WORKERS) as ex:
             for start, (rc, out, err) in ex.map(one, starts):
                 logs += out[-2000:] + err[-2000:]
@@ -118,11 +156,35 @@ class C11(Check):
                     problems.append("correspondence: cases file does not evaluate: " + err[-1500:])
                     continue
                 bad = parse_nat_list(parse_printed(out, "bad"))
-                if bad is None:
+                drift = parse_nat_list(parse_printed(out, "drift"))
+                if bad is None or drift is None:
                     problems.append("correspondence: could not parse model output: " + out[-500:])
                     continue
                 mism.extend(start + b for b in bad)
+                self.drift.extend(start + b for b in drift)
         return sorted(mism), logs, problems
+
+    def extra_coverage(self, cases):
+        """drift = cases on which everything the theorems speak about agrees but a corner behaviour of bbolt itself
+        (error class of DeleteNestedBucket for an unbound / empty name, error class and number of NextSequence /
+        SetSequence on a read-only transaction, cursor position after running off the end) differs from the model:
+        counted, never raised.  closed_db:* = what Update / View / Batch answer on a closed handle (the property is
+        silent; Batch hands out bbolt's unconverted error)."""
+        cov = {"drift_cases": len(getattr(self, "drift", [])),
+               "drift_samples": [self.sample(cases[i]) for i in getattr(self, "drift", [])[:2]]}
+        try:
+            txt = open(os.path.join(COQ, "Generated", "TxFlow.v")).read()
+            m = re.search(r"\(\* facts source: (.*?) \*\)", txt, re.S)
+            cov["facts_source"] = re.sub(r"\s+", " ", m.group(1)) if m else "unknown"
+        except OSError:
+            cov["facts_source"] = "missing"
+        closed = {}
+        for c in cases:
+            for tg in c.get("tags", []):
+                if tg.startswith("closed_db:"):
+                    closed[tg] = closed.get(tg, 0) + 1
+        cov["closed_db_answers"] = closed
+        return cov
 
     # -- shrinking: drop steps while the harness still reports the same
     #    violation kind on the replayed input ---------------------------------
@@ -172,7 +234,9 @@ class C11(Check):
                 ents.append("(%s, inr %s)" % (I.b(e["k"]), self.r_tree(I, e["b"])))
             else:
                 ents.append("(%s, inl %s)" % (I.b(e["k"]), I.v(e.get("v"))))
-        return "(Bkt %s %s)" % (cN(t["seq"]), clist(ents))
+        if not ents and not t["seq"]:
+            return "empty_bkt"
+        return I.t("Bkt %s %s" % (cN(t["seq"]), clist(ents)))
 
     def r_op(self, I, o):
         k = lambda: I.b(o["k"])
@@ -234,39 +298,72 @@ class C11(Check):
     def r_case(self, I, c):
         steps = []
         for st, ob in zip(c["in"]["steps"], c["obs"]["steps"]):
-            post = self.r_tree(I, ob["post"])
             ret = RET.get(ob.get("ret", ""), "None")
+            opn = cN(int(ob.get("open", 0)))
             if st["t"] == "reopen":
-                steps.append("SReopen %s" % post)
-            elif st["t"] == "tx":
-                steps.append("STx %s %s %s %s" % (KIND[st["kind"]], self.r_ops(I, st.get("ops", []), ob.get("res", [])), ret, post))
-            else:
-                steps.append("SOverlap %s %s %s %s %s %s" % (
-                    self.r_ops(I, st.get("before", []), ob.get("before", [])), KIND[st["kind"]],
+                steps.append("SReopen %s" % ("None" if ob.get("post") is None else "(Some %s)" % self.r_tree(I, ob["post"])))
+                continue
+            post = self.r_tree(I, ob["post"])
+            if st["t"] == "tx":
+                steps.append("STx %s %s %s %s %s" % (kind(st, ob), self.r_ops(I, st.get("ops", []), ob.get("res", [])), ret, post, opn))
+            elif st["t"] == "overlap":
+                steps.append("SOverlap %s %s %s %s %s %s %s" % (
+                    self.r_ops(I, st.get("before", []), ob.get("before", [])), kind(st, ob),
                     self.r_ops(I, st.get("ops", []), ob.get("res", [])), ret,
-                    self.r_ops(I, st.get("after", []), ob.get("after", [])), post))
+                    self.r_ops(I, st.get("after", []), ob.get("after", [])), post, opn))
+            elif st["t"] == "conc":
+                calls = []
+                if len(st.get("calls", [])) != len(ob.get("calls", [])):
+                    raise Unrepresentable("calls")
+                for cl, co in zip(st["calls"], ob["calls"]):
+                    calls.append("(%s, %s, %s)" % (END[cl["end"]], self.r_ops(I, cl.get("ops", []), co.get("res") or []),
+                                                   RET.get(co.get("ret", ""), "None")))
+                steps.append("SConc %s %s %s %s %s" % (cbool(st.get("mode") == "batch"), clist(["\n    " + x for x in calls]),
+                                                      clist(["%d%%nat" % i for i in ob.get("order", [])]), post, opn))
+            else:
+                raise Unrepresentable(st["t"])
         if len(c["in"]["steps"]) != len(c["obs"]["steps"]):
             raise Unrepresentable("steps")
-        return clist(["\n  " + s for s in steps])
+        return steps
 
     def render_cases(self, cases):
+        # every step is a definition of its own: elaborating one huge nested
+        # list literal is far slower than many small ones
         I = Interner()
-        rows = []
-        for c in cases:
+        defs, rows = [], []
+        for ci, c in enumerate(cases):
             try:
-                rows.append(self.r_case(I, c))
+                steps = self.r_case(I, c)
             except (Unrepresentable, KeyError):
                 # an observation the model has no value for (unknown error
                 # class, ...): a case that cannot match (initial sequence is 0)
-                rows.append("[SReopen (Bkt 1 [])]")
-        return """From Verif Require Import Base.Prelude KV.KV KV.KVCorr.
-Local Open Scope N_scope.
+                steps = ["SReopen (Some (Bkt 1%N []))"]
+            names = []
+            for si, s in enumerate(steps):
+                n = "s_%d_%d" % (ci, si)
+                names.append(n)
+                defs.append((len(I.defs), "Definition %s : step := %s." % (n, s)))
+            rows.append(clist(names))
+        # byte strings are interned while the steps are rendered: emit each
+        # step after the byte strings it refers to
+        out, k = [], 0
+        for nb, d in defs:
+            out.extend(I.defs[k:nb])
+            k = max(k, nb)
+            out.append(d)
+        out.extend(I.defs[k:])
+        return """From Coq Require Import Uint63.
+From Verif Require Import Base.Prelude KV.KV KV.KVCorr.
+Local Open Scope uint63_scope.
 %s
 Definition cases : list (list step) :=
 %s.
-Definition bad := Eval vm_compute in mismatches cases.
+Definition verdicts := Eval vm_compute in judge cases.
+Definition bad := Eval vm_compute in fst verdicts.
+Definition drift := Eval vm_compute in snd verdicts.
 Print bad.
-""" % ("\n".join(I.defs), clist(["\n " + r for r in rows]))
+Print drift.
+""" % ("\n".join(out), clist(["\n " + r for r in rows]))
 
 
 CHECK = C11
